@@ -46,6 +46,20 @@ pub enum R {
     Any,
     /// `[..]` (not negated) / `[^..]`
     Class(Vec<char>, bool),
+    /// `(?s:.)`
+    AnyNl,
+    /// `(?i:c)`
+    LitCi(char),
+    /// spellings that NEGATE A FLAG THAT IS NOT SET (no effect): `(?-s:.)`, `(?-i:c)`, `(?-m:^)`
+    AnyNegS,
+    LitNegI(char),
+    StartNegM,
+    /// `\\A`, `\\z`, `(?m:\\z)` (multi-line mode does not change `\\z`), `(?m:^)`, `(?m:$)`
+    StartA,
+    EndZ,
+    EndZm,
+    MlStart,
+    MlEnd,
     Start,
     End,
     WordB,
@@ -65,7 +79,7 @@ pub enum R {
 // ---------------------------------------------------------------- rendering
 
 fn is_atom(e: &R) -> bool {
-    matches!(e, R::Lit(_) | R::Any | R::Class(..) | R::Group(_) | R::Look(..) | R::Atomic(_) | R::Backref(_) | R::CondGroup(..) | R::CondExpr(..))
+    matches!(e, R::Lit(_) | R::Any | R::AnyNl | R::LitCi(_) | R::AnyNegS | R::LitNegI(_) | R::Class(..) | R::Group(_) | R::Look(..) | R::Atomic(_) | R::Backref(_) | R::CondGroup(..) | R::CondExpr(..))
 }
 
 thread_local! {
@@ -95,6 +109,16 @@ pub fn render(e: &R, out: &mut String) {
             out.push(*c)
         }
         R::Any => out.push('.'),
+        R::AnyNl => out.push_str("(?s:.)"),
+        R::AnyNegS => out.push_str("(?-s:.)"),
+        R::LitCi(c) => out.push_str(&format!("(?i:{})", c)),
+        R::LitNegI(c) => out.push_str(&format!("(?-i:{})", c)),
+        R::StartNegM => out.push_str("(?-m:^)"),
+        R::StartA => out.push_str("\\A"),
+        R::EndZ => out.push_str("\\z"),
+        R::EndZm => out.push_str("(?m:\\z)"),
+        R::MlStart => out.push_str("(?m:^)"),
+        R::MlEnd => out.push_str("(?m:$)"),
         R::Class(cs, neg) => {
             out.push('[');
             if *neg {
@@ -251,7 +275,7 @@ fn lens(e: &R) -> (usize, Option<usize>) {
         Some(a?.saturating_add(b?))
     }
     match e {
-        R::Lit(_) | R::Any | R::Class(..) => (1, Some(1)),
+        R::Lit(_) | R::Any | R::Class(..) | R::AnyNl | R::AnyNegS | R::LitCi(_) | R::LitNegI(_) => (1, Some(1)),
         R::Cat(v) => v.iter().map(lens).fold((0, Some(0)), |(a, b), (c, d)| (a + c, add(b, d))),
         R::Alt(v) => {
             let mut lo = usize::MAX;
@@ -319,10 +343,26 @@ impl<'t> M<'t> {
                 Some(d) if d == *c => k(self, ix + d.len_utf8()),
                 _ => false,
             },
-            R::Any => match self.next_char(ix) {
+            R::Any | R::AnyNegS => match self.next_char(ix) {
                 Some(d) if d != '\n' => k(self, ix + d.len_utf8()),
                 _ => false,
             },
+            R::AnyNl => match self.next_char(ix) {
+                Some(d) => k(self, ix + d.len_utf8()),
+                _ => false,
+            },
+            R::LitCi(c) => match self.next_char(ix) {
+                Some(d) if d == *c || d.to_lowercase().eq(c.to_lowercase()) => k(self, ix + d.len_utf8()),
+                _ => false,
+            },
+            R::LitNegI(c) => match self.next_char(ix) {
+                Some(d) if d == *c => k(self, ix + d.len_utf8()),
+                _ => false,
+            },
+            R::StartA | R::StartNegM => ix == 0 && k(self, ix),
+            R::EndZ | R::EndZm => ix == self.text.len() && k(self, ix),
+            R::MlStart => (ix == 0 || self.prev_char(ix) == Some('\n')) && k(self, ix),
+            R::MlEnd => (ix == self.text.len() || self.next_char(ix) == Some('\n')) && k(self, ix),
             R::Class(cs, neg) => match self.next_char(ix) {
                 Some(d) if cs.contains(&d) != *neg => k(self, ix + d.len_utf8()),
                 _ => false,
@@ -636,14 +676,21 @@ struct Ctx {
 
 impl Gen {
     fn atom(&mut self) -> R {
-        match self.rng.below(8) {
-            0 | 1 => R::Lit('a'),
-            2 => R::Lit('b'),
-            3 => R::Any,
-            4 => R::Class(vec!['a', 'b'], false),
-            5 => R::Class(vec!['a'], true),
-            6 => R::Lit('é'),
-            _ => R::Lit('-'),
+        match self.rng.below(24) {
+            0..=4 => R::Lit('a'),
+            5..=7 => R::Lit('b'),
+            8..=10 => R::Any,
+            11..=12 => R::Class(vec!['a', 'b'], false),
+            13 => R::Class(vec!['a'], true),
+            14..=15 => R::Lit('é'),
+            16 => R::Lit('-'),
+            17 => R::AnyNl,
+            18 => R::LitCi('a'),
+            19 => R::LitCi('b'),
+            20 => R::AnyNegS,
+            21 => R::LitNegI('a'),
+            22 => R::Lit('\n'),
+            _ => R::LitCi('é'),
         }
     }
 
@@ -740,10 +787,17 @@ impl Gen {
                     R::KeepOut
                 }
             }
-            27 => match self.rng.below(5) {
+            27 => match self.rng.below(12) {
                 0 => R::Start,
                 1 => R::End,
                 2 | 3 => R::WordB,
+                4 => R::NotWordB,
+                5 => R::StartA,
+                6 => R::EndZ,
+                7 => R::EndZm,
+                8 => R::MlStart,
+                9 => R::MlEnd,
+                10 => R::StartNegM,
                 _ => R::NotWordB,
             },
             _ => {
@@ -873,7 +927,9 @@ fn texts() -> Vec<String> {
         out.extend(next.iter().cloned());
         layer = next;
     }
-    out.push("ab\nab".into());
+    for t in ["ab\nab", "A", "aA", "Ab", "BA", "É", "aÉ", "a\nb", "\n", "a\n", "\na", "ab\n", "a\n\nb", "A\nb", "b\na\n"] {
+        out.push(t.into());
+    }
     out.push("aabbaabb".into());
     out.push("abcabcabc".into());
     out.push("bbbbbb".into());
@@ -912,8 +968,8 @@ fn compare(e: &R, pat: &str, re: &Regex, text: &str, budget: &mut Budget) -> Opt
 /// a size that is constant by construction (fixed-size pieces, fixed counts, equally long alternatives / branches); None = not obviously so
 fn clearly_const(e: &R) -> Option<usize> {
     match e {
-        R::Empty | R::Start | R::End | R::WordB | R::NotWordB | R::KeepOut | R::Look(..) => Some(0),
-        R::Lit(_) | R::Any | R::Class(..) => Some(1),
+        R::Empty | R::Start | R::End | R::WordB | R::NotWordB | R::KeepOut | R::Look(..) | R::StartA | R::EndZ | R::EndZm | R::MlStart | R::MlEnd | R::StartNegM => Some(0),
+        R::Lit(_) | R::Any | R::Class(..) | R::AnyNl | R::AnyNegS | R::LitCi(_) | R::LitNegI(_) => Some(1),
         R::Cat(v) => v.iter().map(clearly_const).try_fold(0usize, |a, b| b.map(|b| a + b)),
         R::Alt(v) => {
             let first = clearly_const(v.first()?)?;
